@@ -513,10 +513,14 @@ fn one_par<T: Sc>(out: &mut Out, rng: &mut Rng, thorough: bool, i: usize, thread
     if let Some(p) = dynp(fl, mk(&c), &c.y, w.as_ref(), c.eps) {
         twins.push(Twin { prefix: "twinInto".into(), prob: p.to_seq() });
     }
+    // a sequential problem passed through `into_parallel()`
+    if let Some(p) = dynp(fl.seq(), mk(&c), &c.y, w.as_ref(), c.eps) {
+        twins.push(Twin { prefix: "twinIntoPar".into(), prob: p.to_par() });
+    }
     emit_twin_case_f(
         out,
         &format!(
-            "twins=twinSeq,twinInto threads={} failderiv={} faileval={}{}",
+            "twins=twinSeq,twinInto,twinIntoPar threads={} failderiv={} faileval={}{}",
             threads,
             if fail.is_some() { 1 } else { 0 },
             if fail_eval.is_some() { 1 } else { 0 },
